@@ -73,7 +73,8 @@ theorem flat_ring_noUnused (N c : Nat) (h : 1 ≤ N * c) :
     ∀ k < flat_ringNVerts N c, ∃ f ∈ flat_ringFaces N c, k ∈ f := by
   rw [flat_ring_nverts]
   intro k hk
-  simp only [flat_ringFaces, List.mem_flatMap, List.mem_range]
+  rw [flat_ringFaces_norm]
+  simp only [flat_ringFacesCanon, List.mem_flatMap, List.mem_range]
   by_cases h0 : k = 0
   · exact ⟨[0, 0 + 1, 0 + 2], ⟨0, by omega, by simp⟩, by simp [h0]⟩
   · by_cases h1 : k = N * c + 1
@@ -84,7 +85,8 @@ theorem ring_noUnused (N c : Nat) (o : Bool) (h : 1 ≤ N * c) :
     ∀ k < ringNVerts N c o, ∃ f ∈ ringFaces N c o, k ∈ f := by
   rw [ring_nverts N c o h]
   intro k hk
-  simp only [ringFaces, List.mem_append, List.mem_flatMap, List.mem_range'_1]
+  rw [ringFaces_norm]
+  simp only [ringFacesCanon, List.mem_append, List.mem_flatMap, List.mem_range'_1]
   by_cases hlast : k = 0 ∨ N * c ≤ k
   · -- apex, or one of the vertices of the closing face
     cases o
@@ -101,7 +103,8 @@ theorem cylinder_noUnused (N : Nat) (fc : Bool) (hN : 1 ≤ N) :
     ∀ k < cylinderNVerts N fc, ∃ f ∈ cylinderFaces N fc, k ∈ f := by
   rw [cylinder_nverts]
   intro k hk
-  simp only [cylinderFaces, List.mem_append, List.mem_flatMap, List.mem_range]
+  rw [cylinderFaces_norm]
+  simp only [cylinderFacesCanon, List.mem_append, List.mem_flatMap, List.mem_range]
   by_cases h1 : k < N
   · exact ⟨[k, N + k, (k + 1) % N], Or.inr ⟨k, h1, by simp⟩, by simp⟩
   · by_cases h2 : k < 2 * N
@@ -118,7 +121,8 @@ theorem sphere_uv_noUnused (a b : Nat) (ha : 1 ≤ a) (hb : 1 ≤ b) :
     ∀ k < sphere_uvNVerts a b, ∃ f ∈ sphere_uvFaces a b, k ∈ f := by
   intro k hk
   rw [sphere_uv_nverts] at hk
-  simp only [sphere_uvFaces, List.mem_append, List.mem_flatMap, List.mem_range, sphere_uv_nverts]
+  rw [sphere_uvFaces_norm]
+  simp only [sphere_uvFacesCanon, List.mem_append, List.mem_flatMap, List.mem_range, sphere_uv_nverts]
   have hab : b * (a - 1) + b = a * b := by
     obtain ⟨a', rfl⟩ : ∃ a', a = a' + 1 := ⟨a - 1, by omega⟩
     rw [Nat.add_sub_cancel, Nat.succ_mul, Nat.mul_comm]
